@@ -276,7 +276,7 @@ var rules = []rule{
 	{"ibb-local-close-fails", func(r *rand.Rand) []piece {
 		// the application closes an IBB stream itself and that Close fails (or
 		// races with inbound data); the peer then goes on naming the stream
-		mode := pick(r, "withhold", "withhold", "error-close", "data-error", "concurrent")
+		mode := pick(r, "withhold", "withhold", "error-close", "data-error", "concurrent", "deadline-only")
 		var ps []piece
 		sid, next := "so", 1
 		if r.Intn(2) == 0 {
@@ -291,7 +291,8 @@ var rules = []rule{
 		}
 		name := "ibb.closefail/" + sid + "/" + mode
 		ps = append(ps, act(name))
-		if mode != "concurrent" {
+		unordered := mode == "concurrent" || mode == "deadline-only"
+		if !unordered {
 			ps = append(ps, await(name))
 		}
 		ps = append(ps, st(ibbData("set", "lc1", sid, next, "QUJD")))
@@ -299,7 +300,7 @@ var rules = []rule{
 			ps = append(ps, st(msg("", "lc2", el("data", nsIBB, "seq", fmt.Sprint(next+1), "sid", sid).text("QUJD"))))
 		}
 		ps = append(ps, st(ibbData("set", "lc3", sid, 7, "QUJD"))) // wrong seq
-		if mode == "concurrent" {
+		if unordered {
 			ps = append(ps, await(name))
 		}
 		ps = append(ps, st(iq("set", "lc4", el("close", nsIBB, "sid", sid))))
@@ -670,11 +671,23 @@ func (e *env) runAct(name string) *action {
 				return nil
 			}
 		}
+		if mode == "deadline-only" {
+			// something to flush when the peer closes the stream (buffered, no packet yet)
+			e.c.Guard(name, func() { conn.Write([]byte("0123456789")) })
+			e.c.Count("ibb_deadline_armed_with_data_buffered", 1)
+		}
 		e.mu.Lock()
 		e.ibbAck = mode // what the peer does with this stream's <close/> / <data/> requests from now on
 		e.mu.Unlock()
 		return e.start(name, "", func(ctx context.Context) (bool, error) {
 			conn.SetWriteDeadline(time.Now().Add(40 * time.Millisecond))
+			if mode == "deadline-only" {
+				// the application only arms a deadline; the stream is ended by the
+				// peer.  (Nothing of the harness is touched after the call: a lock
+				// taken here would order it before the driver's next write and hide
+				// from the race detector what the library leaves unordered.)
+				return true, nil
+			}
 			if mode == "data-error" {
 				conn.Write([]byte("0123456789")) // buffered: Close has to flush it first
 			}
